@@ -597,6 +597,7 @@ class StmtMixin(object):
             return ("continue", None)
         except RaiseSignal as r:
             self.raises.append((list(self.path_conds), r.exc, r.node))
+            self.__dict__.setdefault("raise_meta", []).append({"file_writes": self.__dict__.get("file_writes", 0)})
             return ("raise", r.exc)
         finally:
             self.path_conds.pop()
